@@ -20,6 +20,7 @@ import (
 	"net/http"
 	"net/http/httptest"
 	"runtime"
+	"sort"
 	"strings"
 	"sync"
 	"time"
@@ -166,7 +167,7 @@ func startCaller(p *snix.Peer, i int, kind string, results []string, wg *sync.Wa
 		case "hello":
 			_, err = p.Client.Hello(context.Background(), fmt.Sprintf("tag%d", i))
 		case "read":
-			_, err = p.Client.Tunnel(uint64(100+i)).Read(make([]byte, 16))
+			_, err = p.Client.Tunnel(uint64(100 + i)).Read(make([]byte, 16))
 		case "write":
 			_, err = p.Client.Tunnel(uint64(100 + i)).Write([]byte("x"))
 		case "close":
@@ -834,6 +835,43 @@ func runProxy(sc proxyScenario) (problems []string, skipped string) {
 	return problems, ""
 }
 
+// problemClass maps an observation of runProxy to the vocabulary of the teardown models.
+func problemClass(pr string) string {
+	switch {
+	case strings.Contains(pr, "front connection") && strings.Contains(pr, "still open"):
+		return "front-open"
+	case strings.Contains(pr, "name still registered"):
+		return "registered"
+	case strings.Contains(pr, "Endpoint.Accept did not return"):
+		return "accept-blocked"
+	case strings.Contains(pr, "Endpoint.Close did not return"):
+		return "close-blocked"
+	case strings.Contains(pr, "ServeFront did not return"):
+		return "servefront-not-returned"
+	case strings.Contains(pr, "connect notifications"):
+		return "disconnect-count"
+	case strings.Contains(pr, "goroutine(s) left"):
+		return "goroutines-left"
+	case strings.Contains(pr, "control connection still open"):
+		return "ctl-open"
+	case strings.Contains(pr, "read on accepted connection"):
+		return "session-open"
+	}
+	return "other"
+}
+
+func setString(m map[string]bool) string {
+	var ks []string
+	for k := range m {
+		ks = append(ks, k)
+	}
+	sort.Strings(ks)
+	if len(ks) == 0 {
+		return "nothing"
+	}
+	return strings.Join(ks, ",")
+}
+
 func main() {
 	log.SetOutput(io.Discard)
 	http.DefaultTransport.(*http.Transport).DisableKeepAlives = true
@@ -889,6 +927,12 @@ func main() {
 		stuck    []int
 	}
 	var spans []span
+	type tdSpan struct {
+		at   int
+		op   string
+		impl map[string]bool
+	}
+	var tdSpans []tdSpan
 	seen := map[string]bool{}
 	failedKind := map[string]bool{} // once a scenario kind has produced a violation, do not spend watchdogs on it again
 	budget := 150 * time.Second
@@ -973,6 +1017,15 @@ func main() {
 				k := "teardown:" + sc.fault + ":" + strings.Join(strings.Fields(pr)[:2], "-")
 				rep.Fail(k, pr, []string{op})
 			}
+			if sc.mode == "legacy" {
+				// second-layer models: what do they predict is left undone for this scenario?
+				cls := map[string]bool{}
+				for _, pr := range problems {
+					cls[problemClass(pr)] = true
+				}
+				tdSpans = append(tdSpans, tdSpan{len(lines), op, cls})
+				lines = append(lines, fmt.Sprintf("teardown fault=%s tunnels=%d seed=%d", sc.fault, sc.tunnels, f.Seed))
+			}
 		}
 	}
 	model, err := hx.RunDriver(f.Driver, nil, lines)
@@ -1005,6 +1058,27 @@ func main() {
 				rep.Disagree("transport-race", sp.op, "impl events", "model rejected: "+rejected)
 			} else if mStuck != implStuck {
 				rep.Disagree("transport-race", sp.op, "stuck="+implStuck, "stuck="+mStuck+" ("+sum+")")
+			}
+			rep.TracesValidated++
+		}
+		for _, sp := range tdSpans {
+			out := model[sp.at]
+			mcls := map[string]bool{}
+			for _, w := range strings.FieldsFunc(out, func(r rune) bool { return r == ' ' || r == '[' || r == ']' }) {
+				for _, pre := range []string{"after-fault=", "final="} {
+					if strings.HasPrefix(w, pre) {
+						for _, c := range strings.Split(strings.TrimPrefix(w, pre), ",") {
+							if c != "" {
+								mcls[c] = true
+							}
+						}
+					}
+				}
+			}
+			if strings.Contains(out, "bad-op") || strings.Contains(out, "setup-rejected") {
+				rep.Disagree("teardown-model", sp.op, "scenario ran", "model: "+out)
+			} else if setString(mcls) != setString(sp.impl) {
+				rep.Disagree("teardown-model", sp.op, "left undone: "+setString(sp.impl), "left undone: "+setString(mcls)+" ("+out+")")
 			}
 			rep.TracesValidated++
 		}
